@@ -34,11 +34,13 @@ const CL0: Cl = Cl::Quorum;
 
 /// failure symbols (names from the C06 alphabet) and whether a fiber ending with them yields an error that another
 /// node could cure (ignorable for the speculative loop) or a definitive one
-const FAILS: [(&str, bool); 4] = [
+const FAILS: [(&str, bool); 5] = [
     ("Overloaded", true),
     ("ReadTimeout(received=2,required=2,data_present=false)", true),
     ("Unavailable(alive=2)", true),
     ("SyntaxError", false),
+    // only offered in the DowngradingConsistency sweeps (there it is decided as "ignore the write error")
+    ("WriteTimeout(SIMPLE,received=1)", true),
 ];
 
 struct Att {
@@ -56,6 +58,8 @@ struct Fiber {
     /// (attempt id, failure symbol index) of its failures, in order
     failures: Vec<(usize, usize)>,
     ended: bool,
+    /// ended by an "ignore write error" decision
+    ignored: bool,
 }
 
 #[derive(Default, Debug)]
@@ -89,6 +93,13 @@ struct Params {
     p: usize,
     m: usize,
     idem: bool,
+    pol: Policy,
+}
+
+impl Params {
+    fn n_fails(&self) -> usize {
+        if self.pol == Policy::Downgrading { 5 } else { 4 }
+    }
 }
 
 fn one_execution(pr: Params, fails: &[Sym], ch: &mut Chooser) -> RunOut {
@@ -96,7 +107,7 @@ fn one_execution(pr: Params, fails: &[Sym], ch: &mut Chooser) -> RunOut {
     let res = vcore::catch(std::panic::AssertUnwindSafe(|| {
         vasync::run(|| async {
             let out = &mut out;
-            let rec = Arc::new(RecordingPolicy::new(PolicySource::Real(retrysym::policy_of(Policy::Default))));
+            let rec = Arc::new(RecordingPolicy::new(PolicySource::Real(retrysym::policy_of(pr.pol))));
             let listener = Arc::new(Listener::default());
             let cfg = ExecConfig {
                 is_idempotent: pr.idem,
@@ -127,11 +138,11 @@ fn one_execution(pr: Params, fails: &[Sym], ch: &mut Chooser) -> RunOut {
             let mut expect_new: Option<(usize, usize, Cl)>;
             // fiber 0 starts at once
             if pr.p > 0 {
-                fibers.push(Fiber { current: None, target: 0, cl: CL0, failures: vec![], ended: false });
+                fibers.push(Fiber { current: None, target: 0, cl: CL0, failures: vec![], ended: false, ignored: false });
                 expect_new = Some((0, 0, CL0));
                 next_target = 1;
             } else {
-                fibers.push(Fiber { current: None, target: 0, cl: CL0, failures: vec![], ended: true });
+                fibers.push(Fiber { current: None, target: 0, cl: CL0, failures: vec![], ended: true, ignored: false });
                 model.complete(0, Outcome::Exhausted);
                 expect_new = None;
             }
@@ -216,7 +227,8 @@ fn one_execution(pr: Params, fails: &[Sym], ch: &mut Chooser) -> RunOut {
                             fail(out, "exec:early-return", format!("returned {got:?} while attempts {in_flight:?} are in flight / an execution may still be started"));
                             return;
                         }
-                        (Some(Expected::Success(f)), ExecResult::Completed { coordinator, token }) => *coordinator == fibers[f].target && Some(token.as_str()) == fibers[f].current.map(|a| format!("attempt{a}")).as_deref(),
+                        (Some(Expected::Success(f)), ExecResult::IgnoredWriteError { coordinator }) => fibers[f].ignored && *coordinator == fibers[f].target,
+                        (Some(Expected::Success(f)), ExecResult::Completed { coordinator, token }) if !fibers[f].ignored => *coordinator == fibers[f].target && Some(token.as_str()) == fibers[f].current.map(|a| format!("attempt{a}")).as_deref(),
                         (Some(Expected::DefinitiveError(f)), ExecResult::Err(RequestError::LastAttemptError(e))) | (Some(Expected::IgnorableError(f)), ExecResult::Err(RequestError::LastAttemptError(e))) => match (att_of(f), fibers[f].failures.last()) {
                             (Some(a), Some(&(_, s))) => format!("{e:?}") == format!("{:?}", error_for_attempt(&fails[s].err, a)),
                             _ => false,
@@ -258,7 +270,7 @@ fn one_execution(pr: Params, fails: &[Sym], ch: &mut Chooser) -> RunOut {
                 // ---- events
                 let mut evs = Vec::new();
                 for &a in &in_flight {
-                    for o in 0..=FAILS.len() {
+                    for o in 0..=pr.n_fails() {
                         evs.push(Ev::Complete(a, o));
                     }
                 }
@@ -286,12 +298,12 @@ fn one_execution(pr: Params, fails: &[Sym], ch: &mut Chooser) -> RunOut {
                         } else if model.tick() == 1 {
                             let f = fibers.len();
                             if next_target < pr.p {
-                                fibers.push(Fiber { current: None, target: next_target, cl: CL0, failures: vec![], ended: false });
+                                fibers.push(Fiber { current: None, target: next_target, cl: CL0, failures: vec![], ended: false, ignored: false });
                                 expect_new = Some((f, next_target, CL0));
                                 next_target += 1;
                             } else {
                                 // nothing left in the plan: the new execution ends at once without a result
-                                fibers.push(Fiber { current: None, target: 0, cl: CL0, failures: vec![], ended: true });
+                                fibers.push(Fiber { current: None, target: 0, cl: CL0, failures: vec![], ended: true, ignored: false });
                                 model.complete(f, Outcome::Exhausted);
                             }
                         }
@@ -308,7 +320,7 @@ fn one_execution(pr: Params, fails: &[Sym], ch: &mut Chooser) -> RunOut {
                             let _ = tx.send(Err(error_for_attempt(&fails[s].err, a)));
                             fibers[f].failures.push((a, s));
                             // the decision: a fresh real session fed this fiber's own failures (independence of sessions)
-                            let pol = retrysym::policy_of(Policy::Default);
+                            let pol = retrysym::policy_of(pr.pol);
                             let mut sess = pol.new_session();
                             let mut cl = CL0;
                             let mut d = Decision::DontRetry;
@@ -333,6 +345,7 @@ fn one_execution(pr: Params, fails: &[Sym], ch: &mut Chooser) -> RunOut {
                                 }
                                 Decision::IgnoreWrite => {
                                     fibers[f].ended = true;
+                                    fibers[f].ignored = true;
                                     model.complete(f, Outcome::Success);
                                 }
                             }
@@ -364,7 +377,7 @@ fn one_execution(pr: Params, fails: &[Sym], ch: &mut Chooser) -> RunOut {
 }
 
 fn case_json(pr: Params, choices: &[usize]) -> Value {
-    json!({"leg":"exec-spec","p":pr.p,"max_speculative":pr.m,"idempotent":pr.idem,"choices":choices})
+    json!({"leg":"exec-spec","policy":pr.pol.name(),"p":pr.p,"max_speculative":pr.m,"idempotent":pr.idem,"choices":choices})
 }
 
 fn main() {
@@ -382,7 +395,12 @@ fn main() {
         })
         .collect();
     if let Some(case) = r.replay_case() {
-        let pr = Params { p: case["p"].as_u64().unwrap_or(1) as usize, m: case["max_speculative"].as_u64().unwrap_or(0) as usize, idem: case["idempotent"].as_bool().unwrap_or(false) };
+        let pr = Params {
+            p: case["p"].as_u64().unwrap_or(1) as usize,
+            m: case["max_speculative"].as_u64().unwrap_or(0) as usize,
+            idem: case["idempotent"].as_bool().unwrap_or(false),
+            pol: case["policy"].as_str().and_then(Policy::from_name).unwrap_or(Policy::Default),
+        };
         let choices: Vec<usize> = case["choices"].as_array().map(|a| a.iter().map(|v| v.as_u64().unwrap_or(0) as usize).collect()).unwrap_or_default();
         let mut ch = Chooser::new(choices);
         let out = one_execution(pr, &fails, &mut ch);
@@ -398,10 +416,17 @@ fn main() {
     let audit_k: u64 = r.tier().pick(16, 4);
     let mut sweeps = Vec::new();
     let (max_p, max_m) = r.tier().pick((3usize, 2usize), (4usize, 3usize));
-    for idem in [false, true] {
-        for p in 0..=max_p {
-            for m in 0..=max_m {
-                sweeps.push(Params { p, m, idem });
+    // DowngradingConsistency (lowered consistency is per execution; one more failure symbol): smaller bounds
+    let (dmax_p, dmax_m) = r.tier().pick((2usize, 2usize), (3usize, 2usize));
+    for (pol, mp, mm) in [(Policy::Default, max_p, max_m), (Policy::Downgrading, dmax_p, dmax_m)] {
+        for idem in [false, true] {
+            for p in 0..=mp {
+                for m in 0..=mm {
+                    if pol == Policy::Downgrading && p == 0 {
+                        continue;
+                    }
+                    sweeps.push(Params { p, m, idem, pol });
+                }
             }
         }
     }
@@ -447,14 +472,14 @@ fn main() {
         }
         if let Some(c) = &res.capped {
             capped = true;
-            r.note(&format!("capped_p{}_m{}_idem{}", pr.p, pr.m, pr.idem), json!(c));
+            r.note(&format!("capped_{}_p{}_m{}_idem{}", pr.pol.name(), pr.p, pr.m, pr.idem), json!(c));
         }
         r.eval(res.executions);
         r.states.fetch_add(states.load(Ordering::Relaxed), Ordering::Relaxed);
         r.transitions.fetch_add(transitions.load(Ordering::Relaxed), Ordering::Relaxed);
         r.traces_validated.fetch_add(audited.load(Ordering::Relaxed), Ordering::Relaxed);
         r.nontrivial(nontrivial.load(Ordering::Relaxed));
-        r.counters.add(&format!("executions_{}_p{}_m{}", if pr.idem { "idem" } else { "nonidem" }, pr.p, pr.m), res.executions);
+        r.counters.add(&format!("executions_{}_{}_p{}_m{}", pr.pol.name(), if pr.idem { "idem" } else { "nonidem" }, pr.p, pr.m), res.executions);
         r.counters.max("max_choice_points", res.max_points as u64);
         for v in res.violations.iter() {
             let (key, text) = v.what.split_once(" :: ").unwrap_or(("exec:unknown", &v.what));
@@ -466,7 +491,7 @@ fn main() {
                 }
             }
             r.traces_validated.fetch_add(2, Ordering::Relaxed);
-            r.violation(key, &format!("{text} | p={} max_speculative={} idempotent={} schedule={:?}", pr.p, pr.m, pr.idem, v.choices), case_json(pr, &v.choices));
+            r.violation(key, &format!("{text} | policy={} p={} max_speculative={} idempotent={} schedule={:?}", pr.pol.name(), pr.p, pr.m, pr.idem, v.choices), case_json(pr, &v.choices));
         }
     }
     let oc = outcomes.into_inner().unwrap();
@@ -477,7 +502,7 @@ fn main() {
     if r.violation_count() == 0 && (r.counters.get("max_in_flight_idempotent") < (1 + max_m).min(max_p) as u64 || oc.len() < 8) {
         vcore::machinery_error("vacuity: the idempotent sweeps never had 1+max attempts in flight / too few distinct outcomes");
     }
-    r.set_rule(&format!("E-ASYNC, full enumeration: plan length 0..={max_p} x max speculative count 0..={max_m} x idempotent flag Default retry policy, initial consistency QUORUM; events complete(attempt, success | Overloaded | ReadTimeout(enough replies, no data) | Unavailable | SyntaxError) and timer tick, one event then polling to quiescence. states/transitions = choice points (+terminal states) / alternatives of the schedule tree; traces_validated = schedules re-executed from recorded choices with identical observation trace (1-in-{audit_k} deterministic subset + 2x per violation). distinct_nontrivial = schedules with two attempts in flight at once (idempotent) or a timer tick between two attempts (non-idempotent)."));
+    r.set_rule(&format!("E-ASYNC, full enumeration: plan length 0..={max_p} x max speculative count 0..={max_m} x idempotent flag Default retry policy (and DowngradingConsistency for plan 1..={dmax_p} x max 0..={dmax_m}, with WriteTimeout(SIMPLE) as a fifth failure), initial consistency QUORUM; events complete(attempt, success | Overloaded | ReadTimeout(enough replies, no data) | Unavailable(alive=2) | SyntaxError) and timer tick, one event then polling to quiescence. states/transitions = choice points (+terminal states) / alternatives of the schedule tree; traces_validated = schedules re-executed from recorded choices with identical observation trace (1-in-{audit_k} deterministic subset + 2x per violation). distinct_nontrivial = schedules with two attempts in flight at once (idempotent) or a timer tick between two attempts (non-idempotent)."));
     r.set_exhaustive(!capped);
     r.assume("which fiber-ending errors are 'definitive' vs curable elsewhere is fixed per symbol in the harness (SyntaxError definitive; Overloaded / ReadTimeout / Unavailable ignorable); all plan targets hand out a connection (C06-B covers targets without one)");
     r.sample(json!({"p":3,"max_speculative":1,"idempotent":true,"events":["Tick","Complete(0,Overloaded)","Complete(1,success)"],"attempts":[[0,"QUORUM"],[1,"QUORUM"],[2,"QUORUM"]],"note":"execution 0 moves to target 2 because execution 1 holds target 1"}));
